@@ -63,7 +63,7 @@ fn dump(snap: &DependencySnapshot, out: &mut Vec<String>, tag: &str) {
         });
     }
     for (id, vs) in snap.version_sets.iter() { let mut m: Vec<u32> = vs.matching_candidates.iter().map(|s| s.0).collect(); m.sort(); out.push(format!("{tag}-vs {} name {} match{}", id.0, vs.name.0, m.iter().map(|x| format!(" {x}")).collect::<String>())); }
-    for (id, u) in snap.version_set_unions.iter() { let mut m: Vec<u32> = u.iter().map(|s| s.0).collect(); m.sort(); out.push(format!("{tag}-union {} vs{}", id.0, m.iter().map(|x| format!(" {x}")).collect::<String>())); }
+    for (id, u) in snap.version_set_unions.iter() { let m: Vec<u32> = u.iter().map(|s| s.0).collect(); out.push(format!("{tag}-union {} vs{}", id.0, m.iter().map(|x| format!(" {x}")).collect::<String>())); }
     for (id, p) in snap.packages.iter() { out.push(format!("{tag}-pkg {} cands{} excl{}", id.0, p.solvables.iter().map(|x| format!(" {}", x.0)).collect::<String>(), p.excluded.iter().map(|(s, r)| format!(" {}:{}", s.0, r.0)).collect::<String>())); }
     let mut st = format!("{tag}-strings"); for (id, _) in snap.strings.iter() { st.push_str(&format!(" {}", id.0)); } out.push(st);
 }
